@@ -333,3 +333,91 @@ def snippet(fn: ast.FunctionDef, targets: list[str], inputs: list[str], lean_nam
     sig = ' '.join(f'({_lean_name(p)} : Int)' for p in ctx.params)
     typ = ' × '.join(['Int'] * len(targets))
     return f'def {lean_name} {sig} : {typ} :=\n  {body}', list(ctx.params)
+
+
+# ---------------------------------------------------------------------------------------------------------------
+# floating-point closed forms (signal models): expressions over a scalar type with the transcendental functions of
+# `M.Transc`; tensors are translated element-wise (broadcasting helpers such as `unsqueeze_right(x, n)` are the identity
+# per element), `x ** 2` is `sq x`
+
+_TRANSC = {'exp': 'exp', 'log': 'log', 'cos': 'cos', 'sin': 'sin', 'sqrt': 'sqrt', 'sinc': 'sinc'}
+
+
+def fexpr(node, ctx: Ctx, poisoned: set) -> str:
+    if isinstance(node, ast.Constant):
+        v = node.value
+        if isinstance(v, bool):
+            raise Untranslatable('bool constant')
+        if isinstance(v, float) and v == int(v):
+            v = int(v)
+        if isinstance(v, int) and 0 <= v <= 2:
+            return f'({v} : K)'
+        raise Untranslatable(f'constant {node.value!r}')
+    if isinstance(node, ast.Attribute) and isinstance(node.value, ast.Name) and node.value.id == 'torch' and node.attr == 'pi':
+        return 'Transc.pi'
+    if isinstance(node, ast.Attribute) and node.attr in ('ndim', 'shape', 'dtype', 'device'):
+        raise Untranslatable(f'.{node.attr}')
+    if isinstance(node, (ast.Name, ast.Attribute)):
+        name = _ident(node)
+        if name in poisoned:
+            raise Untranslatable(f'{name} depends on untranslated code')
+        return ctx.use(name)
+    if isinstance(node, ast.UnaryOp) and isinstance(node.op, ast.USub):
+        return f'(-{fexpr(node.operand, ctx, poisoned)})'
+    if isinstance(node, ast.BinOp):
+        if isinstance(node.op, ast.Pow):
+            if isinstance(node.right, ast.Constant) and node.right.value == 2:
+                return f'(sq {fexpr(node.left, ctx, poisoned)})'
+            raise Untranslatable('power other than 2')
+        a, b = fexpr(node.left, ctx, poisoned), fexpr(node.right, ctx, poisoned)
+        op = {ast.Add: '+', ast.Sub: '-', ast.Mult: '*', ast.Div: '/'}.get(type(node.op))
+        if op is None:
+            raise Untranslatable(f'operator {type(node.op).__name__}')
+        return f'({a} {op} {b})'
+    if isinstance(node, ast.Call):
+        f = node.func
+        if isinstance(f, ast.Name) and f.id in ('unsqueeze_right', 'unsqueeze_left') and node.args:
+            return fexpr(node.args[0], ctx, poisoned)
+        if isinstance(f, ast.Attribute) and isinstance(f.value, ast.Name) and f.value.id == 'torch' and f.attr in _TRANSC and len(node.args) == 1:
+            return f'({_TRANSC[f.attr]} {fexpr(node.args[0], ctx, poisoned)})'
+        raise Untranslatable(f'call {ast.unparse(node)[:50]}')
+    raise Untranslatable(f'expression {type(node).__name__}')
+
+
+def float_function(fn: ast.FunctionDef, inputs: list[str], lean_name: str):
+    """`forward` of a signal model: local assignments in order, `return (expr,)`; names in `inputs` (in this order) are the
+    parameters (method arguments and `self.<attr>` as `self_<attr>`); assignments that cannot be translated (shape
+    bookkeeping) poison their target - using a poisoned name makes the site untranslatable"""
+    ctx = Ctx(inputs)
+    poisoned: set = set()
+    lets = []
+    ret = None
+    for st in fn.body:
+        if isinstance(st, ast.Expr) and isinstance(st.value, ast.Constant):
+            continue
+        if isinstance(st, ast.Assign) and len(st.targets) == 1 and isinstance(st.targets[0], ast.Name):
+            name = st.targets[0].id
+            try:
+                v = fexpr(st.value, ctx, poisoned)
+            except Untranslatable:
+                poisoned.add(name)
+                ctx.bound.discard(name)
+                continue
+            poisoned.discard(name)
+            ctx.bound.add(name)
+            lets.append(f'let {_lean_name(name)} : K := {v}')
+            continue
+        if isinstance(st, ast.Return):
+            v = st.value
+            if isinstance(v, ast.Tuple) and len(v.elts) == 1:
+                v = v.elts[0]
+            ret = fexpr(v, ctx, poisoned)
+            break
+        raise Untranslatable(f'statement {type(st).__name__}')
+    if ret is None:
+        raise Untranslatable('no return')
+    if ctx.params != list(inputs):
+        raise Untranslatable(f'free names {[p for p in ctx.params if p not in inputs]} (expected inputs {inputs})')
+    sig = ' '.join(f'({_lean_name(p)} : K)' for p in inputs)
+    body = '\n  '.join(lets + [ret])
+    return f'def {lean_name} {sig} : K :=\n  {body}'
